@@ -189,7 +189,28 @@ def run(F, R):
                 if t["k"] == "call" and lib.callee_is(t, "std::iter::Iterator::next") and "iter_mut_apps" in fmt_t(bv.trace_op(t["args"][0])):
                     outer = L
         if outer is None:
-            R.inconclusive("C09-R2", "outer-loop", "no loop over iter_mut_apps()")
+            # the roles swapped: a loop over the responses that searches the apps.  One apps iterator created outside that loop
+            # and searched inside it hands a later response only the apps the earlier searches left over.
+            shared_apps = []
+            for L in comps:
+                if len(L) < 2:
+                    continue
+                for sbi_ in sorted(L):
+                    st_ = bv.blocks[sbi_]["t"]
+                    if st_["k"] != "call" or st_.get("name") not in ("find", "find_map", "position", "any", "all", "nth", "skip_while", "take_while", "next") or not st_.get("args"):
+                        continue
+                    if "iter_mut_apps" not in fmt_t(bv.trace_op(st_["args"][0]))[:400]:
+                        continue
+                    recv_ = [s2_["r"]["p"]["l"] for s2_ in bv.blocks[sbi_]["s"] if s2_["k"] == "assign" and s2_["r"]["k"] == "ref" and s2_["r"].get("m") and not s2_["r"]["p"].get("p")]
+                    for l_ in recv_[-1:]:
+                        made_ = [dbi_ for (dbi_, dsi_, kind_, x_) in bv.defs.get(l_, []) if dbi_ in bv.reach0]
+                        if made_ and not any(m_ in L for m_ in made_):
+                            shared_apps.append(sbi_)
+            if shared_apps:
+                R.violation("C09-R2", "apps-rescanned-per-response", "the apps are searched with one iterator shared by all responses: a response that comes after another only sees the apps the "
+                            "earlier search left over, so responses in a different order than the app set (or after an unknown id) are dropped", lib.loc(bv, shared_apps[0]))
+            else:
+                R.inconclusive("C09-R2", "outer-loop", "no loop over iter_mut_apps()")
         else:
             exits = [(a, b) for a in outer for b in bv.succ[a] if b not in outer]
             bad = []
